@@ -167,7 +167,7 @@ func checkC03(w *World) {
 			w.filterLoops(P, fn, r)
 		}
 	}
-	w.floor(P, "R03.4", 10)
+	w.floorSites(P, "R03.4", 10)
 	// R03.5 concatenations stored by handlers
 	docRule(P, "R03.5", "P", "a node-set that a handler stores as the context result after concatenating several node-sets (append of a slice with ...) passed through the forward normaliser on every path; the union builds its concatenation in a slice allocated by the handler (appending onto an operand would reorder the caller's variable).")
 	n5 := 0
@@ -254,7 +254,7 @@ func checkC03(w *World) {
 			w.check(P, "R03.5", "union concatenates into its own slice", c.Pos(), local, fmt.Sprintf("the slice appended to was allocated by the handler: %v", local))
 		})
 	}
-	w.floor(P, "R03.5", 3)
+	w.floorSites(P, "R03.5", 3)
 	// R03.6 node-sets are never modified in place
 	docRule(P, "R03.6", "F", "no function of the evaluator writes into a node-set it did not allocate itself: every append to, element store into, copy into or sort of a NodeSet (or []store.Cursor) has a first argument that originates only from a make/composite literal/append chain local to the function (a node-set received through the context, a parameter or a variable is shared with the caller, with sibling contexts of a predicate loop and with the bound variable; filtering it in place with s[:0] corrupts them).")
 	eff := w.Effects()
@@ -358,7 +358,7 @@ func checkC03(w *World) {
 			}
 		})
 	})
-	w.floor(P, "R03.6", 20)
+	w.floorSites(P, "R03.6", 20)
 	// abbreviated steps (@, .., //, implicit child) collect only through the normalising selectors
 	w.include(P, "C01", "R01.4")
 }
